@@ -139,9 +139,66 @@ func (l logStore) Begin(ctx context.Context, ro bool) (txn, error) {
 	return logTxn{logKV{t}, t}, nil
 }
 
+// ---- hook wrapper between the transactional inmem backend and physical.NewCache ----
+// Its transactions call back at the START of the underlying Commit and right AFTER it returned, i.e. inside
+// cacheTransaction.Commit before the cache's own post-processing continues. The scheduler uses the two points to
+// run concurrent plain readers on the parent cache inside the commit window (same goroutine: at both points the
+// cache holds none of the parent's key locks).
+
+type hookState struct {
+	atStart func()
+	after   func(err error)
+}
+
+type hookBackend struct {
+	physical.TransactionalBackend
+	h *hookState
+}
+
+type hookTxn struct {
+	physical.Transaction
+	h *hookState
+}
+
+func (b *hookBackend) BeginTx(ctx context.Context) (physical.Transaction, error) {
+	t, err := b.TransactionalBackend.BeginTx(ctx)
+	if err != nil {
+		return nil, err
+	}
+	return &hookTxn{t, b.h}, nil
+}
+
+func (b *hookBackend) BeginReadOnlyTx(ctx context.Context) (physical.Transaction, error) {
+	t, err := b.TransactionalBackend.BeginReadOnlyTx(ctx)
+	if err != nil {
+		return nil, err
+	}
+	return &hookTxn{t, b.h}, nil
+}
+
+func (t *hookTxn) Commit(ctx context.Context) error {
+	if f := t.h.atStart; f != nil {
+		t.h.atStart = nil
+		f()
+	}
+	err := t.Transaction.Commit(ctx)
+	if f := t.h.after; f != nil {
+		t.h.after = nil
+		f(err)
+	}
+	return err
+}
+
+// what the scheduler needs besides the layered store: the hook points and direct access to the backend below
+type below struct {
+	h      *hookState       // nil for the bare layer
+	raw    physical.Backend // the inmem backend itself
+	prefix string           // key prefix the layered store adds ("v/" behind the storage view)
+}
+
 var layers = []string{"bare", "cache", "view"}
 
-func newStore(t *testing.T, layer string) store {
+func newStore(t *testing.T, layer string) (store, *below) {
 	logger := log.NewNullLogger()
 	raw, err := inmem.NewInmem(nil, logger)
 	if err != nil {
@@ -152,16 +209,17 @@ func newStore(t *testing.T, layer string) store {
 		t.Fatal("inmem.NewInmem did not return a transactional backend")
 	}
 	if layer == "bare" {
-		return physStore{physKV{tb}, tb}
+		return physStore{physKV{tb}, tb}, &below{raw: tb}
 	}
-	c := physical.NewCache(tb, 0, logger, &metrics.BlackholeSink{})
+	hs := &hookState{}
+	c := physical.NewCache(&hookBackend{tb, hs}, 0, logger, &metrics.BlackholeSink{})
 	c.SetEnabled(true)
 	ctb, ok := c.(physical.TransactionalBackend)
 	if !ok {
 		t.Fatal("cache over a transactional backend is not transactional")
 	}
 	if layer == "cache" {
-		return physStore{physKV{ctb}, ctb}
+		return physStore{physKV{ctb}, ctb}, &below{h: hs, raw: tb}
 	}
 	ls := logical.NewLogicalStorage(ctb)
 	view := logical.NewStorageView(ls, "v/")
@@ -173,7 +231,7 @@ func newStore(t *testing.T, layer string) store {
 	if err := ctb.Put(context.Background(), &physical.Entry{Key: "outside", Value: []byte{1}}); err != nil {
 		t.Fatal(err)
 	}
-	return logStore{logKV{view}, ts}
+	return logStore{logKV{view}, ts}, &below{h: hs, raw: tb, prefix: "v/"}
 }
 
 // ---- canonical results ----
@@ -295,6 +353,8 @@ type sched struct {
 	txns []txn  // by id
 	ro   []bool // by id
 	done []bool // by id: commit/rollback was called
+	bl   *below
+	wset [][]string // by id: keys the transaction wrote (successfully)
 }
 
 func (s *sched) who(id int) (kv, string) {
@@ -312,9 +372,17 @@ func (s *sched) dataOp(id int, writeBias int) {
 	switch c := rng.Intn(100); {
 	case c < writeBias*2/3:
 		v := values[rng.Intn(len(values))]
-		s.out.Op(vh.Catch(func() string { return resErr(k.Put(s.ctx, key, v)) }), "put", w, key, vh.Hex(v))
+		r := vh.Catch(func() string { return resErr(k.Put(s.ctx, key, v)) })
+		s.out.Op(r, "put", w, key, vh.Hex(v))
+		if id >= 0 && r == "ok" {
+			s.wset[id] = append(s.wset[id], key)
+		}
 	case c < writeBias:
-		s.out.Op(vh.Catch(func() string { return resErr(k.Delete(s.ctx, key)) }), "del", w, key)
+		r := vh.Catch(func() string { return resErr(k.Delete(s.ctx, key)) })
+		s.out.Op(r, "del", w, key)
+		if id >= 0 && r == "ok" {
+			s.wset[id] = append(s.wset[id], key)
+		}
 	case c < writeBias+(100-writeBias)/2:
 		s.out.Op(vh.Catch(func() string { return resGet(k.Get(s.ctx, key)) }), "get", w, key)
 	case c < writeBias+(100-writeBias)*3/4:
@@ -336,8 +404,73 @@ func (s *sched) dump() {
 	s.out.Op(strings.Join(vals, ","), append([]string{"dump"}, s.g.keys...)...)
 }
 
+// keys for concurrent readers inside a commit window: mostly keys of the transaction's write set
+func (s *sched) readerKeys(id int) []string {
+	rng := s.g.rng
+	n := rng.Intn(4)
+	ks := make([]string, 0, n)
+	for i := 0; i < n; i++ {
+		if len(s.wset[id]) > 0 && rng.Chance(70) {
+			ks = append(ks, rng.Pick(s.wset[id]))
+		} else {
+			ks = append(ks, rng.Pick(s.g.keys))
+		}
+	}
+	return ks
+}
+
+func (s *sched) hget(k string) {
+	s.out.Op(vh.Catch(func() string { return resGet(s.st.Get(s.ctx, k)) }), "hget", k)
+}
+
+// cache coherent at quiescence: a read through the layered store vs. a direct read of the backend below
+func (s *sched) cohere() {
+	var b strings.Builder
+	for _, k := range s.g.keys {
+		c := resGet(s.st.Get(s.ctx, k))
+		e, err := s.bl.raw.Get(s.ctx, s.bl.prefix+k)
+		d := "nil"
+		if err != nil {
+			d = errClass(err)
+		} else if e != nil {
+			d = "v:" + vh.Hex(e.Value)
+		}
+		if c == d {
+			b.WriteByte('=')
+		} else {
+			b.WriteByte('!')
+		}
+	}
+	s.out.Op(b.String(), append([]string{"cohere"}, s.g.keys...)...)
+}
+
 func (s *sched) finish(id int, commit bool) {
 	w := vh.I(int64(id))
+	if commit && s.bl.h != nil && !s.done[id] && s.g.rng.Chance(50) {
+		// commit in micro-steps: concurrent plain readers at the two hook points of the commit window
+		r0, r1 := s.readerKeys(id), s.readerKeys(id)
+		s.out.Op("ok", "cstart", w)
+		s.bl.h.atStart = func() {
+			for _, k := range r0 {
+				s.hget(k)
+			}
+		}
+		s.bl.h.after = func(err error) {
+			s.out.Op(resErr(err), "cunder", w)
+			for _, k := range r1 {
+				s.hget(k)
+			}
+		}
+		res := vh.Catch(func() string { return resErr(s.txns[id].Commit(s.ctx)) })
+		if s.bl.h.atStart != nil || s.bl.h.after != nil {
+			s.t.Fatalf("commit of transaction %d did not pass the hook points", id)
+		}
+		s.out.Op(res, "commit", w)
+		s.done[id] = true
+		s.cohere()
+		s.dump()
+		return
+	}
 	if commit {
 		s.out.Op(vh.Catch(func() string { return resErr(s.txns[id].Commit(s.ctx)) }), "commit", w)
 	} else {
@@ -349,7 +482,8 @@ func (s *sched) finish(id int, commit bool) {
 
 func runCase(t *testing.T, out *vh.Out, rng *vh.Rand, layer string, steps int) {
 	out.Reset()
-	s := &sched{t: t, out: out, ctx: context.Background(), st: newStore(t, layer), g: newCaseGen(rng)}
+	st, bl := newStore(t, layer)
+	s := &sched{t: t, out: out, ctx: context.Background(), st: st, bl: bl, g: newCaseGen(rng)}
 	out.Op("ok", "layer", layer)
 	// initial population
 	for _, k := range s.g.keys {
@@ -382,6 +516,7 @@ func runCase(t *testing.T, out *vh.Out, rng *vh.Rand, layer string, steps int) {
 			s.txns = append(s.txns, tx)
 			s.ro = append(s.ro, ro)
 			s.done = append(s.done, false)
+			s.wset = append(s.wset, nil)
 			mode := "rw"
 			if ro {
 				mode = "ro"
@@ -421,6 +556,9 @@ func runCase(t *testing.T, out *vh.Out, rng *vh.Rand, layer string, steps int) {
 	}
 	for _, id := range open() {
 		s.finish(id, rng.Chance(90))
+	}
+	if s.bl.h != nil {
+		s.cohere()
 	}
 	s.dump()
 }
